@@ -12,6 +12,7 @@ cd /verif
 streams=$(python3 -c "
 import sys; sys.path.insert(0,'/verif'); import props; print(' '.join(props.PROPS['$p']['streams']))")
 for s in $streams; do
+  rm -f /tmp/seedtest2_$s.json
   ./build/harness run -prop $s -tier quick -seed $sd -model build/ocaml/model -replays /tmp/rp_seed2 -out /tmp/seedtest2_$s.json > /tmp/seedtest2_$s.log 2>&1
   python3 - $s <<'PY'
 import json,sys
